@@ -277,6 +277,31 @@ func (t *c03Table) info(i *c03Info, variant int) *conformancev1.ConformancePaylo
 }
 
 func (t *c03Table) result(r *c03Result, variant int) *conformancev1.ClientResponseResult {
+	return t.resultS(r, variant, 0)
+}
+
+// c03Filler: the first n bytes of a fixed pattern.  Payload ids name byte strings; a materialisation may put the
+// same filler in front of every payload (the abstract value says nothing about sizes), so that what distinguishes
+// two payloads lies far from their beginning.
+func c03Filler(n int) []byte {
+	b := make([]byte, n)
+	for i := range b {
+		b[i] = byte('a' + i%23)
+	}
+	return b
+}
+
+func (t *c03Table) resultS(r *c03Result, variant, stretch int) *conformancev1.ClientResponseResult {
+	res := t.result0(r, variant)
+	if stretch > 0 {
+		for _, p := range res.Payloads {
+			p.Data = append(c03Filler(stretch), p.Data...)
+		}
+	}
+	return res
+}
+
+func (t *c03Table) result0(r *c03Result, variant int) *conformancev1.ClientResponseResult {
 	res := &conformancev1.ClientResponseResult{
 		ResponseHeaders:   t.hdrs(r.H, variant),
 		ResponseTrailers:  t.hdrs(r.Tr, variant),
@@ -530,10 +555,11 @@ func TestVerifC03Replay(t *testing.T) {
 			s.Disc = []c03Tag{}
 		}
 		// two materialisations per scenario: the representation choices the abstract value leaves open
-		for _, variant := range []int{(s.ID * 5) % 8, (s.ID*5 + 3) % 8} {
+		for vi, variant := range []int{(s.ID * 5) % 8, (s.ID*5 + 3) % 8} {
+			stretch := []int{0, 0, 1500, 70000, 0, 1023, 0, 4096}[(s.ID+3*vi)%8]
 			run := func() (bool, []c03Tag, string) {
-				exp := tbl.result(&s.Exp, (variant+s.ID/8)%8)
-				act := tbl.result(&s.Act, variant)
+				exp := tbl.resultS(&s.Exp, (variant+s.ID/8)%8, stretch)
+				act := tbl.resultS(&s.Act, variant, stretch)
 				return c03Assert(c03Definition("t", &s.Tc, exp), act)
 			}
 			ok, obs, text := run()
